@@ -1,21 +1,25 @@
 """C05: solutions contain no extraneous solvables."""
 import vlib
-from props import solverstream as ss
+from props import solverstream as ss, tracecheck as tc
 
-THEOREMS = ["C05_oracle_correct"]
-CHECKER = ("coqc Props/C05.v + Print Assumptions; harness solve_cases -> extracted o_supported on every solution")
+THEOREMS = ["C05_oracle_correct", "C05_run_trail_legal", "C05_supported", "C05_trace_supported"]
+CHECKER = ("coqc Props/C05.v + Print Assumptions; harness solve_cases: (a) hook logs -> extracted check_sat_log (legal run, "
+           "theorem C05_trace_supported), (b) extracted o_supported on every solution")
 
 
 def run(res, tier, seed, replay):
     vlib.proof_gate(res, "C05", THEOREMS)
     if replay:
-        recs, hangs = ss.run_replay(replay), []
+        recs, hangs = ss.run_replay(replay, dump=True), []
     else:
-        recs = ss.corpus_recs("C05")
+        recs = ss.corpus_recs("C05", dump=True)
+        r4, h4 = ss.run_streams(tc.trace_streams(tier), seed + 13, dump=True)
+        recs += r4
         r2, hangs = ss.run_streams(ss.streams_for(tier), seed + 11)
         recs += r2
     ss.oracle_sat(recs)
-    n = 0
+    tc.annotate(recs)
+    n, exempt_cases = 0, 0
     for r in recs:
         k = ss.outcome_kind(r["obs"]["outcome"])
         key = ss.case_key(r["case"])
@@ -29,7 +33,14 @@ def run(res, tier, seed, replay):
         if not r["supported"]:
             res.violation(key, f"solution {sol} contains a solvable not reachable from the root/soft requirements in {r['stream']}",
                           ss.replay_obj(r))
+        elif "trace" in r:
+            t = r["trace"]
+            if t.get("db") and t.get("run") and not t.get("strict") and t.get("lenient"):
+                exempt_cases += 1   # a package-level clause of an accepted soft solvable is falsified: theorem n/a, oracle decides
+            elif not (t.get("db") and t.get("run") and t.get("strict")):
+                res.tie_break(f"trace inclusion (C05_trace_supported) no longer checks for a run in {r['stream']}: checker "
+                              f"verdict {t}; the returned solution itself is supported", tc.trace_replay(r))
     res.rule = ("same streams as C01 (all feature masks incl. soft); every returned solution is judged by the "
                 "Coq-verified support procedure; non-trivial = solution with >= 2 solvables")
-    res.extra.update({"solutions_checked": n, "hangs": len(hangs)})
+    res.extra.update({"solutions_checked": n, "hangs": len(hangs), "soft_exemption_traces": exempt_cases}, **tc.stats(recs))
     return res.finish(CHECKER, vlib.TRUSTED_BASE, [])
